@@ -281,6 +281,28 @@ fn timers_property(tier: Tier) -> i32 {
             size: f.history.len(),
         });
     }
+    // command API through a real Core (handles in the model, clear/drop from update)
+    let mut cst = TStats::default();
+    let mut cfound = vec![];
+    let mut csample = None;
+    timers::viacore::explore(tier.pick(7, 9), tier.pick(2, 3), &mut cst, &mut cfound, &mut csample);
+    per.push(json!({"api": "command API through Core (handles held by the model)", "timers": tier.pick("<= 2", "<= 3"), "depth_bound": tier.pick(7, 9),
+        "states": cst.states, "transitions": cst.transitions, "complete_histories": cst.histories, "distinct_outcome_vectors": cst.outcomes.len()}));
+    if let Some(s) = csample {
+        samples.push(json!({"api": "command-via-core", "history": s}));
+    }
+    for f in cfound {
+        rep.violation(mc_kit::Violation {
+            key: format!("via-core/{}", f.fail.key),
+            what: format!("command-API timers through Core, history {:?}: {}", f.history, f.fail.what),
+            replay: timers::viacore::case_json(&f.history),
+            size: f.history.len(),
+        });
+    }
+    total.states += cst.states;
+    total.transitions += cst.transitions;
+    total.histories += cst.histories;
+    total.outcomes.extend(cst.outcomes);
     total.states += lst.states;
     total.transitions += lst.transitions;
     total.histories += lst.histories;
